@@ -52,6 +52,15 @@ type StatsCollector interface {
 	IncrementTxAborted()
 }
 
+// lastActive returns the time of the transaction's last operation. Every
+// operation stamps it under the transaction's lock, from the goroutine of the
+// request that performs it; the registry's sweeper runs on its own goroutine.
+func (tx *TransactionImpl) lastActive() time.Time {
+	tx.mu.Lock()
+	defer tx.mu.Unlock()
+	return tx.lastActiveTime
+}
+
 // Get retrieves a value for the given key
 func (tx *TransactionImpl) Get(key []byte) ([]byte, error) {
 	// Use transaction lock for consistent view
